@@ -244,6 +244,15 @@ func (r *Reader) parseWorksheets() error {
 }
 
 // parseWorksheet parses a single worksheet.
+// Limits of a worksheet grid. Rows and columns are those of the file format
+// (ECMA-376: 1,048,576 rows, 16,384 columns); the cell limit bounds the dense
+// grid this reader builds.
+const (
+	maxSheetRows  = 1048576
+	maxSheetCols  = 16384
+	maxSheetCells = 1 << 22
+)
+
 func (r *Reader) parseWorksheet(data []byte, name string, index int) (*Sheet, error) {
 	var ws worksheetXML
 	if err := xml.Unmarshal(data, &ws); err != nil {
@@ -308,6 +317,17 @@ func (r *Reader) parseWorksheet(data []byte, name string, index int) (*Sheet, er
 				maxCol = col
 			}
 		}
+	}
+
+	// The grid is dense: its size comes from the largest row and column
+	// named anywhere in the sheet, i.e. from numbers in the file. Refuse
+	// addresses beyond the limits of the format and grids that could not be
+	// allocated (one far-away cell would otherwise claim gigabytes).
+	if maxRow > maxSheetRows || maxCol >= maxSheetCols {
+		return nil, fmt.Errorf("cell address outside the worksheet limits (row %d, column %d)", maxRow, maxCol+1)
+	}
+	if int64(maxRow)*int64(maxCol+1) > maxSheetCells {
+		return nil, fmt.Errorf("worksheet grid of %d x %d cells is too large", maxRow, maxCol+1)
 	}
 
 	sheet.MaxRow = maxRow - 1 // Convert to 0-indexed
